@@ -30,7 +30,7 @@ def floors(tier):
     return {"evaluations": 1500 if q else 20000, "distinct_nontrivial": 150 if q else 2500, "kind:synth": 900 if q else 12000,
             "kind:curated": 300 if q else 5000, "kind:corpus": 40 if q else 200, "with_load_node": 300 if q else 4000,
             "no_dependency": 20 if q else 300, "chain_ge_3": 300 if q else 4000, "leading_load": 30 if q else 400,
-            "last_is_most_expensive": 100 if q else 1500, "monitor:get_critical_path": 1500 if q else 20000}
+            "last_is_most_expensive": 100 if q else 1500, "monitor:get_critical_path": 4000 if q else 55000}
 
 
 def plan(tier, seed):
@@ -57,6 +57,28 @@ def graph_data(forms, dg):
 
 
 def judge(forms, dg, R, case):
+    """The critical path is asked for several times, as the real front end does (text report, then dict / YAML, then graph
+    export): every answer is judged, not only the first one."""
+    nt = False
+    for rep in range(3):
+        before = sum(R.witness_counts.values())
+        nt = judge_once(forms, dg, R, case) or nt
+        if rep > 0 and sum(R.witness_counts.values()) > before:
+            # the first call was fine, a later one is not: re-key the new witnesses
+            for w in R.witnesses[-(sum(R.witness_counts.values()) - before):]:
+                if not w["key"].startswith("repeated-call/"):
+                    R.witness_counts[w["key"]] -= 1
+                    if R.witness_counts[w["key"]] <= 0:
+                        del R.witness_counts[w["key"]]
+                    w["key"] = "repeated-call/" + w["key"]
+                    R.witness_counts[w["key"]] += 1
+            break
+        if sum(R.witness_counts.values()) > before:
+            break
+    return nt
+
+
+def judge_once(forms, dg, R, case):
     nodes, edges, lat, wo = graph_data(forms, dg)
     try:
         cp = dg.get_critical_path()
